@@ -46,6 +46,13 @@ func (a *armoredWriter) Close() error {
 		return errors.New("ArmoredWriter already closed")
 	}
 	a.closed = true
+	if !a.started {
+		// No Write call was made: still produce a well-formed (empty) armor.
+		if _, err := io.WriteString(a.dst, Header+"\n"); err != nil {
+			return err
+		}
+		a.started = true
+	}
 	if err := a.encoder.Close(); err != nil {
 		return err
 	}
